@@ -15,6 +15,7 @@ import (
 	"os"
 	"path/filepath"
 	"regexp"
+	"sort"
 	"strconv"
 	"strings"
 	"time"
@@ -764,6 +765,22 @@ func (tx *Transaction) ProcessConnection(client string, cPort int, server string
 // ExtractGetArguments transforms an url encoded string to a map and creates ARGS_GET
 func (tx *Transaction) ExtractGetArguments(uri string) {
 	data := urlutil.ParseQuery(uri, '&')
+	if tx.variables.argsGet.Len()+len(data) >= tx.WAF.ArgumentLimit {
+		// SecArgumentsLimit is (about to be) reached. Go maps iterate in random order:
+		// walk the names in sorted order so that the arguments that are kept (and therefore
+		// the outcome of the transaction) do not change from one run to the next.
+		keys := make([]string, 0, len(data))
+		for k := range data {
+			keys = append(keys, k)
+		}
+		sort.Strings(keys)
+		for _, k := range keys {
+			for _, v := range data[k] {
+				tx.AddGetRequestArgument(k, v)
+			}
+		}
+		return
+	}
 	for k, vs := range data {
 		for _, v := range vs {
 			tx.AddGetRequestArgument(k, v)
